@@ -96,6 +96,11 @@ func (a *Account) Sign(msg []byte) []byte {
 	if err != nil {
 		panic(err)
 	}
+	if a.Eth != nil && len(msg) != 32 {
+		// ETHSECP keys sign 32-byte digests only
+		d := sha256.Sum256(msg)
+		msg = d[:]
+	}
 	s, err := h.Sign(msg)
 	if err != nil {
 		panic(err)
